@@ -871,8 +871,8 @@ def multiref_phase(chk, base, sdir):
             return True
         if len(seq) > 1:
             return False
-        if not chk.thorough:                     # one provider: the refs straddle it
-            return arr == (0, 1)
+        if not chk.thorough:     # one provider: two live refs of different kinds straddling it
+            return arr == (0, 1) and refs[0][0] != refs[1][0] and all(l for _k, l in refs)
         return len(refs) == 2 or all(l for _k, l in refs)
     sub = [(mid, allm[mid]) for mid in expect if in_sub(allm[mid])]
     pack_checked = pack_mismatch = 0
@@ -1162,7 +1162,7 @@ def main():
         "multiref packs validated unpacked on: all members without provider, and of the members "
         "with one provider %s: %d members, %d mismatches" % (
             "those with 2 referencing objects and those with 3 live ones" if chk.thorough else
-            "those whose two referencing objects straddle it", mr["pack_validation_unpacked_members"],
+            "those whose two referencing objects are live, differ in kind and straddle it", mr["pack_validation_unpacked_members"],
             mr["pack_validation_mismatches"]),
     ]
     chk.finish()
